@@ -1929,8 +1929,21 @@ impl<'de, 'e> de::Deserializer<'de> for YamlDeserializer<'de, 'e> {
             #[cfg(any(feature = "garde", feature = "validator"))]
             idx: 0,
         })?;
-        if let Some(Ev::SeqEnd { .. }) = self.ev.peek()? {
-            let _ = self.ev.next()?;
+        match self.ev.peek()? {
+            Some(Ev::SeqEnd { .. }) => {
+                let _ = self.ev.next()?;
+            }
+            Some(other) => {
+                // The visitor stopped before the sequence ended (fixed-size tuple / array / tuple
+                // struct with surplus elements). Leaving the rest unread would desynchronise the
+                // event stream: the caller would take the leftovers for the next value or document.
+                let location = other.location();
+                return Err(
+                    Error::msg("sequence has more elements than the target type expects")
+                        .with_location(location),
+                );
+            }
+            None => {}
         }
         Ok(result)
     }
